@@ -422,6 +422,16 @@ class SyncRpcClient(RpcClient):
         )
         return self._send_pdu(req, Response, encrypt_offsets=encrypt_offsets)
 
+    def _recv_exactly(
+        self,
+        view: memoryview,
+    ) -> None:
+        while view:
+            read = self._sock.recv_into(view)
+            if not read:
+                raise ConnectionError("Connection closed before the full PDU was received")
+            view = view[read:]
+
     def _send_pdu(
         self,
         pdu: PDU,
@@ -432,16 +442,13 @@ class SyncRpcClient(RpcClient):
         b_pdu = self._prepare_pdu(pdu, encrypt_offsets)
         self._sock.sendall(b_pdu)
 
-        header = self._sock.recv(16)
+        header = bytearray(16)
+        self._recv_exactly(memoryview(header))
         resp_header = PDUHeader.unpack(header)
 
-        resp = bytearray(resp_header.frag_len)
+        resp = bytearray(max(resp_header.frag_len, 16))
         view = memoryview(resp)
         view[:16] = header
-        view = view[16:]
-
-        while view:
-            read = self._sock.recv_into(view)
-            view = view[read:]
+        self._recv_exactly(view[16:])
 
         return self._process_response(resp, resp_header, resp_type, encrypt_offsets)
